@@ -15,7 +15,8 @@ var c07Paths = []string{"a/go", "b/go", "go", "x/b", "ab", "a/b", "a/b/c", "a.b/
 	"m/pkg", "p/_", "q/struct", "r/struct", "local/out", "other/out", "out", "t/a_b", "t/ab", "u/type", "net/http", "x/http",
 	"w/b2", "b/2", "x/b+", "z/-"}
 var c07Small = []string{"a/go", "b/go", "x/b", "ab", "a/b", "a.b", "x/v1", "v1", "c/2fa", "local/out", "q/out", "p/_"}
-var c07Locals = []string{"", "local/out", "x/v1", "a/b", "go"}
+var c07Locals = []string{"", "local/out", "x/v1", "a/b", "go", "o/ab2", "q/ab3", "r/b2"}
+var c07Cluster = []string{"x/b", "ab", "a/b", "a.b", "a-b", "a_b", "b", "y/b", "w/b2"}
 
 func c07classes(local string, ops []string) []string {
 	cls := []string{}
@@ -123,5 +124,15 @@ func c07(g *Gen) {
 			ops[j] = g.Pick(c07Paths)
 		}
 		c07case(g, local, ops, []string{"random"})
+	}
+	// the numbered fallback against output packages whose leaf looks like a numbered name
+	for i := 0; i < n/3; i++ {
+		local := g.Pick([]string{"o/ab2", "q/ab3", "r/b2", "o/ab2"})
+		k := 3 + g.R.Intn(5)
+		ops := make([]string, k)
+		for j := range ops {
+			ops[j] = g.Pick(c07Cluster)
+		}
+		c07case(g, local, ops, []string{"numbered-vs-local-leaf"})
 	}
 }
